@@ -136,13 +136,14 @@ void _ZN9QtPrivate12argToQStringE11QStringViewmPPKNS_7ArgBaseE(char *ret, uint64
       for (uint32_t k = 0; k < H16(ad, an); k++) { if (k >= an) break; C16_SD(d)[j + k] = ad[k]; } j += (uint32_t)an; i++; }
     else { ASSERT(j < QS_CAP, "QString capacity of the model exceeded (arg)"); C16_SD(d)[j++] = p[i]; } }
   d->f1 = j; QSD(ret) = d; }
-void _ZNK7QString3argERKS_i5QChar(char *ret, char *self, char *a, uint32_t w, uint16_t fill) { QSD(ret) = qad_ref(QSD(self)); }
+void _ZNK7QString3argERKS_i5QChar(char *ret, char *self, char *a, uint32_t w, uint16_t fill) { ASSERT(QSD(self)->f1 > C16_ARGPAT, "QString::arg(QString) model: only log / stream-error texts (long patterns) are expected"); QSD(ret) = C16_EMPTY; }
 void _ZNK7QString3argExii5QChar(char *ret, char *self, uint64_t a, uint32_t w, uint32_t base, uint16_t fill) { QSD(ret) = qad_ref(QSD(self)); }
 static uint8_t c16_isspace(uint16_t c) { return c == ' ' || (c >= 9 && c <= 13) || c == 0x85 || c == 0xA0 || c == 0x1680 || (c >= 0x2000 && c <= 0x200A) || c == 0x2028 || c == 0x2029 || c == 0x202F || c == 0x205F || c == 0x3000; }
 static uint32_t vpl_c16_trim_b(QAD *a) { uint32_t b = 0; for (uint32_t i = 0; i < QHINT16(a); i++) { if (i >= a->f1) break; if (b == i && c16_isspace(QCH16(a)[i])) b = i + 1; } return b; }
 static uint32_t vpl_c16_trim_e(QAD *a, uint32_t b) { uint32_t n = a->f1, e = n; for (uint32_t i = 0; i < QHINT16(a); i++) { if (i >= n) break; uint32_t k = n - 1 - i; if (e == k + 1 && k >= b && c16_isspace(QCH16(a)[k])) e = k; } return e; }
 void _ZN7QString14trimmed_helperERS_(char *ret, char *self) { QAD *a = QSD(self); ASSERT(!numS(a).isnum, "trimmed() of an abstract number string"); uint32_t b = vpl_c16_trim_b(a), e = vpl_c16_trim_e(a, b);
   if (b == 0 && e == a->f1) { QSD(ret) = qad_ref(a); return; } uint32_t l = e > b ? e - b : 0; QAD *d = qs_new(l, qs_hint(a)); vpl_copy16(d, 0, qs_chars(a) + b, l, qs_hint(a)); qs_seal(d, 0); QSD(ret) = d; }
+void _ZN7QString23toLatin1_helper_inplaceERS_(char *ret, char *self) { _ZN7QString15toLatin1_helperERKS_(ret, self); }
 void _ZNK7QString14trimmed_helperERKS_(char *ret, char *self) { _ZN7QString14trimmed_helperERS_(ret, self); }
 
 /* ---- dynamic property "__sasl_raw" of the password reply: QVariant holding a QByteArray; one property per object ---- */
@@ -158,9 +159,10 @@ void _ZNK7QObject8propertyEPKc(char *ret, char *self, char *name) { struct c16_v
   for (uint32_t i = 0; i < C16_NPROP; i++) { if (i >= c16_nprop) break; if (c16_prop_obj[i] == self) { v->ba = c16_prop_val[i]; v->type = 12; } } }
 
 
-/* ---- random identifiers: arbitrary non-empty strings (<= 2 units); randomness / uniqueness is outside the property ---- */
-void _ZN10QXmppUtils18generateStanzaHashEi(char *ret, uint32_t len) { sym16(ret, 1, 2); }
-void _ZN10QXmppUtils18generateStanzaUuidEv(char *ret) { sym16(ret, 1, 2); }
+/* ---- random identifiers: arbitrary non-empty ASCII strings (1..2 units); randomness / uniqueness is outside the property ---- */
+static void c16_id(char *ret) { sym16(ret, 1, 2); QAD *d = QSD(ret); ASSUME(C16_SD(d)[0] >= 1 && C16_SD(d)[0] < 0x80 && (d->f1 < 2 || (C16_SD(d)[1] >= 1 && C16_SD(d)[1] < 0x80))); }
+void _ZN10QXmppUtils18generateStanzaHashEi(char *ret, uint32_t len) { c16_id(ret); }
+void _ZN10QXmppUtils18generateStanzaUuidEv(char *ret) { c16_id(ret); }
 /* x == a ++ [ch] ++ b  (harness oracle helper; avoids QStringBuilder/memcpy in the harness) */
 uint8_t vp_c16_concat_eq(char *x, char *a, uint16_t ch, char *b) { QAD *X = QSD(x), *A = QSD(a), *B = QSD(b); uint32_t la = A->f1, lb = B->f1; if (X->f1 != la + 1 + lb) return 0; uint8_t ok = 1;
   for (uint32_t i = 0; i < QHINT16(X); i++) { if (i >= X->f1) break; uint16_t c = QCH16(X)[i]; uint16_t e = i < la ? QCH16(A)[i] : i == la ? ch : QCH16(B)[i - la - 1]; if (c != e) ok = 0; } return ok; }
@@ -186,7 +188,7 @@ void _ZNK10QByteArray5splitEc(char *ret, char *self, uint8_t sep) { QAD *a = QSD
 #ifndef C16_DIGLEN
 #define C16_DIGLEN 2
 #endif
-#define C16_ORC_CAP 8
+#define C16_ORC_CAP 12
 struct c16_orc { uint32_t alg; QAD *a; uint8_t out[C16_DIGLEN]; };
 static struct c16_orc c16_log[C16_ORC_CAP]; static uint32_t c16_orc_n;
 void _ZN18QCryptographicHash4hashERK10QByteArrayNS_9AlgorithmE(char *ret, char *data, uint32_t alg) { QAD *a = QSD(data);
@@ -249,6 +251,10 @@ void vp_c16_concat(char *out, char *a, uint16_t ch, char *b) { QAD *A = QSD(a), 
   QAD *d = qs_new(la + 1 + lb, qs_hint(A) + 1 + qs_hint(B));
   for (uint32_t i = 0; i < QHINT16(A); i++) { if (i >= la) break; C16_SD(d)[i] = QCH16(A)[i]; } C16_SD(d)[la] = ch;
   for (uint32_t i = 0; i < QHINT16(B); i++) { if (i >= lb) break; C16_SD(d)[la + 1 + i] = QCH16(B)[i]; } QSD(out) = d; }
+
+
+/* exactly n symbolic bytes (concrete length keeps every later offset concrete); ascii: all < 0x80 and != 0 */
+void vp_c16_bytes_exact(char *out, uint32_t n, uint8_t ascii) { ASSERT(n <= 8, "symbolic bytes bound"); QAD *d = qb_new(n, n); for (uint32_t i = 0; i < 8; i++) { if (i >= n) break; uint8_t c = vp_u8(); if (ascii) ASSUME(c < 0x80 && c != 0); C16_BD(d)[i] = c; } C16_BD(d)[n] = 0; QSD(out) = d; }
 
 /* ---- constant tables: a FRESH block per call whose content is selected by a (possibly symbolic) index ---- */
 #define C16_NAMELEN 36
